@@ -193,6 +193,12 @@ def discharge(ctx, f, c, ce, depth):
             bad = [u for u in late if not (sb in f.reach(u[0]) and not _reads_elements(f, u, l))]
             key = sort_key(ctx, f, sorts[0])
             okk = key is not None
+            # the order imposed is total on the keys only if the key type's Ord is the derived one (consistent with its Eq/Hash):
+            # a hand-written comparison that identifies distinct keys lets the hash order through again
+            kt = sort_key_type(ctx, f, sorts[0])
+            bad_ord = non_derived_ord(P, kt)
+            if bad_ord:
+                return False, 'SORTED by %s, but the ordering of %s is hand-written (not #[derive]d): keys that are different may compare equal and keep their hash order' % (key, bad_ord)
             return (not bad and okk), 'SORTED: the collected Vec is sorted (key %s) before any other use; the sort dominates the emitting loop' % key
         return False, 'collected into `%s` and used without sorting' % f.names.get(l)
     # 2b. ERROR-TEXT-ONLY
@@ -263,6 +269,36 @@ def sort_key(ctx, f, c):
     if len(args) == 1:
         return 'Ord'
     return None
+
+
+def sort_key_type(ctx, f, c):
+    P = ctx.prog
+    args = [f.expr_of_operand(a) for a in c['term']['args']]
+    if len(args) >= 2 and args[1][0] == 'closure' and args[1][1] in P.fns:
+        return P.fns[args[1][1]].locals[0]['ty']
+    return ' '.join((c['callee'] or {}).get('gargs', []))
+
+
+def non_derived_ord(P, ty, depth=0):
+    """crate types reachable from `ty` (through fields) whose Ord/PartialOrd impl is hand-written"""
+    out = []
+    seen = set()
+    todo = [ty]
+    while todo and depth < 50:
+        depth += 1
+        t = todo.pop()
+        for a in P.adts.values():
+            if a['path'] in seen:
+                continue
+            if re.search(re.escape(a['path']) + r'(?![A-Za-z0-9_:])', t):
+                seen.add(a['path'])
+                for i in P.impls:
+                    if i['self_ty'] == a['path'] and re.match(r'^std::cmp::(Ord|PartialOrd)', i.get('trait', '')) and not i['derived']:
+                        out.append(a['path'])
+                for v in a['variants']:
+                    for fl in v['fields']:
+                        todo.append(fl['ty'])
+    return sorted(set(out))
 
 
 def independent(ctx, f, L, ce):
